@@ -2,7 +2,7 @@
    Gater states are reached by ANY sequence of events (penalties of any amount on any IP key at any time, sweeps, blacklist
    changes); IPs (v4/v6) are opaque keys; time and sweeps are explicit. *)
 From Coq Require Import List ZArith NArith Bool.
-From LE Require Import P2P.Gater P2P.GaterProofs P2P.RateLimit P2P.RateLimitProofs.
+From LE Require Import P2P.Gater P2P.GaterProofs P2P.RateLimit P2P.RateLimitProofs P2P.PenaltySites Gen.Penalties.
 Import ListNotations.
 Local Open Scope Z_scope.
 
@@ -96,6 +96,15 @@ Proof. exact legal_traffic_never_penalised. Qed.
 Theorem C18_legal_message_changes_nothing : forall ahp known m pid ip proc now, known proc = true ->
   cnt (rl m) proc pid + 1 <= limit (rl m) proc -> nd (on_message ahp known m pid ip (WellFormed proc) now) = nd m.
 Proof. exact legal_message_no_penalty. Qed.
+
+(* the penalty call sites of the whole code base (regenerated from the sources) are exactly the catalogued ones: 2 malformed
+   envelope, 2 unknown procedure, 7 invalid sync request, 7 invalid sync response, 1 rate above the limit, and the 4 forwarding
+   calls modelled in Gater.v; every deciding site is guarded; nobody else declares such a function *)
+Theorem C18_penalty_sites_catalogue :
+  gen_penalty_sites = map fst expected_sites /\ gen_penalty_decls = expected_decls /\ sites_well_guarded = true /\
+  (count_class MalformedEnvelope, count_class UnknownProc, count_class InvalidSyncRequest, count_class InvalidSyncResponse,
+   count_class RateAboveLimit, count_class Plumbing) = (2, 2, 7, 7, 1, 4)%nat.
+Proof. vm_compute. repeat split; reflexivity. Qed.
 
 (* ---- the code before the fix commit: banPeer got an address without /p2p/<peerID>; the ban was recorded, the Disconnect skipped *)
 Theorem C18_malformed_disconnect_refuted :
